@@ -682,14 +682,14 @@ def run(res):
         if t['name'] != 'z9_is_the_90_percent_quantile':
             extra = [a for a in t['axioms'] if a not in common.ALLOWED_AXIOMS]
             res.oblige('theorem %s uses only the Reals/Coquelicot axioms' % t['name'], not extra, extra)
-    n_curves, n_rel, n_bc, n_phi = (24, 60, 66, 6) if quick else (260, 700, 440, 24)
+    n_curves, n_rel, n_bc, n_phi = (20, 60, 66, 6) if quick else (220, 700, 440, 24)
     stats, seeds, probs = {}, [], []
     # D1: certificates
     cert_ready = common.coq_make(['theories/Common/Cert.vo', 'theories/Woehler/WCert.vo'])[0]
     if cert_ready:
         try:
             goals, descr, probs = certificates(res, res.rng, n_curves, stats_mod)
-            ok, bad, log = cert.run_certs('C08', REQ, [], goals, extra_tac='wc_prep;', chunk=40)
+            ok, bad, log = cert.run_certs('C08', REQ, [], goals, extra_tac='wc_prep;', chunk=max(30, -(-len(goals) // common.NCPU)), timeout=1500)
             oks = set(ok)
             for i in range(len(goals)):
                 res.oblige('certificate %s' % (descr[i],), i in oks, log if i not in oks else '')
